@@ -89,7 +89,9 @@ var table = map[string]spec{
 	"balance.transfer/4": {kind: kKey, falseOnRefusal: true, key: func(p *prep) *keys.PrivateKey { return p.u0k }, args: func(p *prep) []any {
 		return []any{p.u0.ScriptHash(), p.u1.ScriptHash(), int64(5), nil}
 	}, never: func(p *prep) [][]any {
-		return [][]any{{nil, p.u1.ScriptHash(), int64(5), nil}, {p.u0.ScriptHash(), nil, int64(5), nil}, {nil, nil, int64(5), nil}}
+		// ... and the contract's own address as the holder: nobody carries its witness (funded in the prepared world)
+		return [][]any{{nil, p.u1.ScriptHash(), int64(5), nil}, {p.u0.ScriptHash(), nil, int64(5), nil}, {nil, nil, int64(5), nil},
+			{p.w.H("balance"), p.u1.ScriptHash(), int64(5), nil}, {p.w.H("balance"), p.w.H("balance"), int64(0), nil}}
 	}},
 	"balance.transferX/4": {kind: kAlphabet, args: func(p *prep) []any { return []any{p.u0.ScriptHash(), p.u1.ScriptHash(), int64(5), []byte{1}} }},
 	"balance.update/3":    updateSpec("balance", kMajority),
@@ -341,7 +343,7 @@ func runMethod(b *runner.Batch, n int, art, method string, arity int, s spec) {
 				r := p.w.Invoke(ss.signers, h, method, args...)
 				b.Tx(1)
 				if !(r.Rejected != "" || r.Faulted() || (r.Halted() && r.Diff.Empty() && len(r.Events) == 0 && tokenMoves(p.w, r) == 0)) {
-					b.Violation(fmt.Sprintf("%s with argument list #%d (a Null party) under signer set '%s' changed state, moved tokens or notified", key, ai, ss.label),
+					b.Violation(fmt.Sprintf("%s with argument list #%d (a Null party or the contract's own address as the holder) under signer set '%s' changed state, moved tokens or notified", key, ai, ss.label),
 						map[string]any{"method": key, "signers": ss.label, "committee": n, "tx": p.w.RenderResult(r, true)})
 				}
 				b.Eval(fmt.Sprintf("%s|never%d|%s|%s|n%d", key, ai, ss.label, r.State, n), true)
